@@ -417,6 +417,8 @@ class Impl(object):
             return self.call(lambda: [len(self.file_bytes("t")), len(self.file_bytes("l"))])
         if op == 80:
             return self.interleave(a[0], a[1])
+        if op == 81:
+            return self.interleave(a[0], a[1], abandon=True)
         # ---- helpers ----
         H = sys.modules["traph.helpers"]
         if op == 60:
@@ -453,7 +455,7 @@ class Impl(object):
         return Crash("unknown opcode %r" % op)
 
 
-def _interleave(self, specs, sched):
+def _interleave(self, specs, sched, abandon=False):
     """start the generator requests, advance them in the order of the schedule (every loop iteration a
     yield point), then finish the unfinished ones in index order"""
     TIS = sys.modules["traph.traph_iterator_state"].TraphIteratorState
@@ -576,6 +578,11 @@ def _interleave(self, specs, sched):
                 if moments:
                     snapshot()
         for i in range(len(gens)):
+            if abandon:
+                # the unfinished requests are dropped where they stand
+                if not done[i]:
+                    gens[i].close()
+                continue
             guard = 0
             while not done[i] and guard < 100000:
                 advance(i)
@@ -585,8 +592,10 @@ def _interleave(self, specs, sched):
         # a query's execution starts with its first step: only the moments from there on count
         self.last_moments = dict((k, v[first.get(k, 0):]) for k, v in moments.items())
         out = []
-        for sp, r in zip(specs, res):
-            if r is REFUSED or isinstance(r, Crash):
+        for k, (sp, r) in enumerate(zip(specs, res)):
+            if not done[k]:
+                out.append([0, None])
+            elif r is REFUSED or isinstance(r, Crash):
                 out.append([1, r])
             elif sp[0] in (0, 1):
                 out.append([1, self.report(r)])
@@ -605,7 +614,7 @@ def _interleave(self, specs, sched):
         TIS.should_yield = orig
 
 
-Impl.interleave = lambda self, specs, sched: self.call(lambda: _interleave(self, specs, sched))
+Impl.interleave = lambda self, specs, sched, abandon=False: self.call(lambda: _interleave(self, specs, sched, abandon))
 
 
 def _ro_make(t, sp, it):
